@@ -81,7 +81,7 @@ package proc
 //@   requires @registered-connections-present forall c net.Conn :: has(l.conns, c) ==> c != nil
 //@   loop 0 invariant forall c net.Conn :: has(conns, c) ==> c != nil
 //@   modifies all
-//@   ensures @waits-for-the-serve-loop waitedfor(l.done)
+//@   proves @waits-for-the-serve-loop waitedfor(l.done)
 //@   callpre Close @closes-the-registered-connections-after-clearing-the-registry l.conns == nil
 
 // ---- C08: a processor is built by the builder of the configured protocol, for the requested service ----------
